@@ -16,6 +16,9 @@ package main
 //  peer_headers n             [0, requested]           n more headers; blocks requested by getdata
 //  peer_blocks k              [0, announced]           next k blocks; heights announced to handlers
 //  peer_sync                  [0, ready]               empty headers message
+//  peer_txblock t rel         [0, requested, announced, txDelivered]   next block with tx t next to its coinbase
+//  peer_burst_rel n           [0, full]                n distinct relevant txs, not waiting for their delivery
+//  wait_delivered k           [0, distinct]            distinct txs delivered as new txs (waits for k)
 //  peer_tx t rel              [0, delivered]
 //  peer_burst n               [0, full]                n irrelevant txs; is the tx channel full and a producer blocked
 //  peer_ping                  [0, pong]
@@ -153,6 +156,7 @@ type sdFetcher struct {
 	gate    chan struct{}
 	fail    bool
 	entered int64
+	exited  int64
 }
 
 func (f *sdFetcher) GetOutputs(ctx context.Context, ops []wire.OutPoint) ([]bitcoin.UTXO, error) {
@@ -166,6 +170,7 @@ func (f *sdFetcher) GetOutputs(ctx context.Context, ops []wire.OutPoint) ([]bitc
 		fail := f.fail
 		f.fail = false
 		f.mu.Unlock()
+		defer atomic.AddInt64(&f.exited, 1)
 		if fail {
 			return nil, errors.New("injected output fetcher failure")
 		}
@@ -334,6 +339,7 @@ func runShutdown(c *Case) ([]Obs, any) {
 	served := int64(0) // blocks served so far = the tip the node should have processed
 	pingNonce := uint64(1000)
 	markerSeq := int64(0)
+	relSeq := int64(0)
 	var api *sdAPI
 	apiSeq := int64(0)
 	burstSeq := int64(0)
@@ -535,6 +541,91 @@ func runShutdown(c *Case) ([]Obs, any) {
 					return held > 0
 				}, react)
 				return Obs{OK, cnt()}
+			case "peer_txblock":
+				// the next block, announced by a headers message of its own, carrying one more tx (t, relevant
+				// or not) next to its coinbase: header, getdata, block, processing
+				t, rel := op.Int(0), op.Int(1) != 0
+				base := peer.get(func() int64 {
+					if peer.sent >= 0 {
+						return peer.sent
+					}
+					return peer.locTip
+				})
+				id := base + 1
+				if id != served+1 {
+					panic(harnessErr("peer_txblock with headers outstanding"))
+				}
+				tx := mkTx(t, []int64{90000 + t*10}, rel)
+				umu.Lock()
+				root := merkleRoot([]bitcoin.Hash32{*blockTx(id, 0).TxHash(), *tx.TxHash()})
+				hdr := bu.Header(id, id-1, 1400000000+id*600, &root)
+				umu.Unlock()
+				msg := wire.NewMsgHeaders()
+				msg.AddBlockHeader(hdr)
+				peer.send(msg)
+				peer.mu.Lock()
+				peer.sent = id
+				peer.mu.Unlock()
+				reqd := waitFor(func() bool { return peer.get(func() int64 { return b2i(peer.requested[id]) }) == 1 }, react)
+				before := announcedIDs()
+				txBefore := rec.count(func(e sdEvent) bool { return e.kind == 1 && e.id == t })
+				enteredBefore := atomic.LoadInt64(&fetch.entered)
+				blk := &wire.MsgBlock{Header: *hdr}
+				blk.AddTransaction(blockTx(id, 0))
+				blk.AddTransaction(tx)
+				peer.send(blk)
+				served++
+				waitFor(func() bool {
+					if atomic.LoadInt64(&fetch.entered) > enteredBefore {
+						return true
+					}
+					_, _, held := rec.snapshot()
+					if held > 0 {
+						return true
+					}
+					if announcedIDs()[id] <= before[id] {
+						return false
+					}
+					return !rel || rec.count(func(e sdEvent) bool { return e.kind == 1 && e.id == t }) > txBefore
+				}, react)
+				ann := announcedIDs()[id] > before[id]
+				dl := rec.count(func(e sdEvent) bool { return e.kind == 1 && e.id == t }) > txBefore
+				return Obs{OK, b2i(reqd), b2i(ann), b2i(dl)}
+			case "peer_burst_rel":
+				// n DISTINCT RELEVANT txs, not waiting for their delivery
+				n := op.Int(0)
+				for i := int64(0); i < n; i++ {
+					peer.send(mkTx(6000+relSeq, []int64{960000 + relSeq*10}, true))
+					relSeq++
+				}
+				pingNonce++
+				pb := peer.get(func() int64 { return peer.pongs })
+				peer.send(wire.NewMsgPing(pingNonce))
+				waitFor(func() bool { return peer.get(func() int64 { return peer.pongs }) > pb }, 1500*time.Millisecond)
+				ch := node.VerifTxChannel()
+				full := len(ch.Channel) == cap(ch.Channel)
+				if full {
+					time.Sleep(100 * time.Millisecond)
+					full = len(ch.Channel) == cap(ch.Channel)
+				}
+				return Obs{OK, b2i(full)}
+			case "wait_delivered":
+				// distinct relevant txs delivered to the handlers as new txs (waits for k, at most 6 s)
+				k := op.Int(0)
+				distinct := func() int64 {
+					m := map[int64]bool{}
+					rec.mu.Lock()
+					for _, e := range rec.events {
+						if e.kind == 1 {
+							m[e.id] = true
+						}
+					}
+					rec.mu.Unlock()
+					return int64(len(m))
+				}
+				waitFor(func() bool { return distinct() >= k }, 6*time.Second)
+				time.Sleep(100 * time.Millisecond)
+				return Obs{OK, distinct()}
 			case "peer_sync":
 				peer.send(wire.NewMsgHeaders())
 				ready := waitFor(func() bool { return node.IsReady(ctx) }, react)
@@ -813,8 +904,10 @@ func runShutdown(c *Case) ([]Obs, any) {
 				}
 				rec.mu.Unlock()
 				if op.Int(0) != 0 {
-					// the consumer reports the failure by requesting a stop
-					waitFor(func() bool { s, _, _ := node.VerifFlags(); return s }, react)
+					// the failing call has returned to its caller; the tx thread then requests a stop, the block
+					// thread just leaves: give either a moment
+					waitFor(func() bool { return atomic.LoadInt64(&fetch.exited) >= atomic.LoadInt64(&fetch.entered) }, react)
+					waitFor(func() bool { s, _, _ := node.VerifFlags(); return s }, 300*time.Millisecond)
 				}
 				return Obs{OK}
 			case "stop":
